@@ -15,4 +15,4 @@ def run(ctx):
     ctx.notes["plans"] = [list(p) for p in room.plans(ctx.tier)]
     recs = room.generate(ctx)
     ctx.replay_and_compare("c10", recs)
-    room.record_and_validate(ctx, 500 if ctx.tier == "quick" else 8000)
+    room.record_and_validate(ctx, 1500 if ctx.tier == "quick" else 10000)
